@@ -36,7 +36,9 @@ THEOREMS = ['inv_reachable', 'inv_step', 'at_most_one_owner_and_alive', 'step_ne
             'queries_agree', 'refines_spec', 'run_refines_spec', 'spec_exec_sound', 'codes_match_spec',
             'client_flags_roundtrip', 'client_success_iff_owner',
             'router_lookup_is_spec_owner', 'lookup_follows_history', 'lookup_at_that_moment',
-            'lookups_change_nothing', 'queries_agree_any_name', 'prefix_router_finds_dead_owner']
+            'lookups_change_nothing', 'queries_agree_any_name', 'prefix_router_finds_dead_owner',
+            'owners_follow_names_step', 'owners_follow_names_history', 'router_models_agree',
+            'unicast_reaches_spec_owner', 'wellknown_owner_is_live']
 TRUSTED_BASE = [
     'Python dict (insertion order, in-place overwrite, del), list.remove / insert / append / `in`, '
     'object identity of connections (`is`) - mirrored by hand in Bus/Names.lean, validated by the streams',
